@@ -204,10 +204,13 @@ pub fn run(ctx: Ctx) -> ! {
     let mut total_eval = 0u64;
     let mut all: Vec<Shard> = Vec::new();
     for sub in &subs {
-        let tables = refmodel::all_tables(&sub.base, sub.kmax);
+        let mut tables = refmodel::all_tables(&sub.base, sub.kmax);
+        let fwd = refmodel::forward_reference_tables(&tables);
+        let n_forward = fwd.len();
+        tables.extend(fwd);
         let nstrings = util::string_count(sub.base.len(), sub.nmax);
         axes.push(json!({
-            "alphabet": sub.base, "max_merges": sub.kmax, "merge_tables": tables.len(),
+            "alphabet": sub.base, "max_merges": sub.kmax, "merge_tables": tables.len(), "of_which_with_forward_references(merge names a symbol produced by a later merge)": n_forward,
             "max_input_len": sub.nmax, "input_strings": nstrings, "vocab_modes": 2,
             "cases": tables.len() as u64 * nstrings * 2,
         }));
@@ -221,6 +224,10 @@ pub fn run(ctx: Ctx) -> ! {
             for explicit in [false, true] {
                 let subj = match build(table, explicit) {
                     Ok(s) => s,
+                    Err(_) if table.forward_refs => {
+                        sh.observe("Bpe::new rejects a merge table with forward references (not judged)");
+                        continue;
+                    }
                     Err(e) => {
                         sh.viol(
                             "Bpe::new rejects a well-formed merge table".to_string(),
